@@ -678,6 +678,10 @@ class CWorld:
             raise Violation("C07", "attach-outcome", f"meta[{name!r}] = ... at {p} ({why}) {'succeeded' if ok else 'raised ' + str(res[0][1])}, expected {'success' if expect else 'refusal'}", shape=why)
         if ok:
             js = js_expected or scls.parse_obj(inst).json()
+            # what reading the stored bytes with the schema gives (re-parsing normalises nested
+            # child-schema values to the declared field type: serialisation round trips are the
+            # unclaimed property C12, not judged here)
+            js = scls.parse_raw(js).json()
             self.meta.setdefault(p, {})[name] = {"name": name, "version": list(sv), "json": js}
         return "ok" if ok else "raise"
 
